@@ -375,6 +375,40 @@ pub fn run(tier: &str) -> i32 {
         }
     }
 
+    // ---------- A3: drop with sealed journals pinned by a lagging keyspace, then open again ----------
+    {
+        use crate::explore::{run_program, RunResult};
+        use crate::seqprop::*;
+        use crate::world::{Cfg, Op};
+        let mut a = Alpha::empty();
+        a.ins = vec![(0, 0, 1), (1, 1, 0)];
+        a.rotate = vec![0, 1];
+        a.jrot = true;
+        a.reopen = true;
+        a.max_reopen = 2;
+        for pfx in ["two_sealed_journals", "l6_l0_mem"] {
+            let mut prop = SeqProp::new("C17", Cfg::default2(), a.clone());
+            prop.prefix = prefix(pfx);
+            for prog in crate::props::c02::leaves(&prop, if q { 2 } else { 3 }) {
+                let mut p2 = prog.clone();
+                p2.push(Op::Reopen);
+                a2 += 1;
+                if let RunResult::Bad(v) = run_program(&prop, &p2, 0, None) {
+                    if v.clause == "reopen" || v.clause == "open" {
+                        findings.lock().unwrap().push(Finding {
+                            sig: format!("after_drop.open_failed|sealed-journals"),
+                            engine: "E1-handles".into(),
+                            variant: json!({"part": "sealed", "prefix": pfx}),
+                            program: prop.prefix.iter().chain(p2.iter()).map(|o| o.to_string()).collect(),
+                            clause: "after_drop.open_failed".into(),
+                            detail: v.detail,
+                        });
+                    }
+                }
+            }
+        }
+    }
+
     // ---------- B: version marker contents ----------
     let deadline_b = Instant::now() + Duration::from_secs_f64(if q { 22.0 } else { 500.0 });
     let bases: Vec<std::path::PathBuf> = (0..3).map(prepare_base).collect();
